@@ -52,7 +52,11 @@ LEVEL_TEXT = ("Lean 4 theorems, all inputs of any size, over an executable model
               "tiny grids and random instances up to 16 sinks x 300 sources and magnitudes to 2^40, float costs over the whole finite range "
               "(zeros, subnormals, all below 1e-8f, full 24-bit mantissas, decimals/thirds, spreads beyond 1e30, FLT_MAX, negatives inside "
               "and just outside the domain), answers `cert ok` and `bound ok` on each; the direct oracle checks feasibility, argmax, the "
-              "brute-force optimum, |scaled cost| <= 2^29 and |scaled cost - cost*factor| <= 1/2+2^-24 on the real output")
+              "brute-force optimum, |scaled cost| <= 2^29 and |scaled cost - cost*factor| <= 1/2+2^-24 on the real output. "
+              "Objects with a past (state carried across calls): one problem in seven is solved, changed through the public mutators "
+              "(increaseDemand/Capacity, addSource/Sink, addDummyCapacity/Demand, reset/setAllocations, setAssignment, makeFeasible, copy; "
+              "also nothing at all) and solved again on the same object; after every solve the plan is checked against the data the object "
+              "reports then, against a fresh object with that data (equal cost) and against the model of a fresh problem (equal plan)")
 LEVEL_NOTE = ("Trusted: Lean kernel (axioms propext/Classical.choice/Quot.sound only), the hand-written model's tie to the code "
               "(differential, bounded by the generator), unbounded Int for C++ integers, libstdc++ heap algorithms as transcribed "
               "(their heap/permutation properties are proved). The fuel of updateTree was re-parameterised to the proved bound "
